@@ -192,6 +192,12 @@ func vkC06Reply(cs vkSrvCase, path vkPath, raw []byte, decodable bool, r vkResul
 					if sent["cookie8b"] {
 						wants = append(wants, "0909090909090909")
 					}
+					if sent["cookie41"] { // over-long cookie of 41 zero octets: its first 8 octets are still what the client sent
+						wants = append(wants, "0000000000000000")
+					}
+					if sent["cookie7"] {
+						wants = append(wants, "01020304050607")
+					}
 					okc := len(wants) == 0
 					for _, wnt := range wants {
 						okc = okc || strings.HasPrefix(ck.Cookie, wnt)
